@@ -415,6 +415,13 @@ Definition device_poll (cfg : config) (s : state) (auth : option nat) (dev : pre
       match key_of s dev with
       | None => fail s "invalid_grant"
       | Some k =>
+      match used_device cfg (st s) k with
+      | Some rid =>
+          (* ErrInvalidatedDeviceCode: the code was redeemed before; revoke the tokens of its request id *)
+          let st1 := revoke_access (st s) rid in
+          let st2 := fst (revoke_refresh st1 rid) in
+          fail (set_store s st2) "invalid_grant"
+      | None =>
       match device (st s) k with
       | None => fail s "invalid_grant"
       | Some (stt, r) =>
@@ -428,11 +435,11 @@ Definition device_poll (cfg : config) (s : state) (auth : option nat) (dev : pre
             let stored := {| r_id := r_id r; r_client := c; r_cl := cl; r_rscopes := r_rscopes r; r_gscopes := r_gscopes r;
                              r_raud := r_raud r; r_gaud := r_gaud r; r_sess := se; r_redirect := "";
                              r_challenge := ""; r_method := ""; r_mode := ""; r_at := now s |} in
-            (* InvalidateDeviceCodeSession (the reference store deletes), then the token sessions *)
-            let s1 := set_store s (delete_device (st s) k) in
+            (* InvalidateDeviceCodeSession, then the token sessions *)
+            let s1 := set_store s (invalidate_device (st s) k (r_id r)) in
             let (s2, minted) := grant_tokens s1 stored (can_refresh cfg (r_gscopes r) cl) in
             (s2, ok_obs minted (expires_in se cfg (now s)) (r_gscopes r))
-      end end
+      end end end
   end end.
 
 (* ------------------------------------------------------------------ token endpoint: authorization_code *)
